@@ -418,3 +418,29 @@ def with_new_helpers_inlined(tu, fn):
     if not ref:
         return fn
     return inline_new_helpers(tu, fn, lambda name: name not in ref)
+
+
+def with_new_helpers(tu, fname, depth=3):
+    """[fn, helper, ...]: the function and the bodies of the helpers it calls that do not exist in the reference tree and
+    could not be inlined (early returns, switches). Rules that look for a statement "in fname" search all of them."""
+    from . import cfront as _cf
+    ref = reference_names(tu.cfile)
+    out, seen, todo = [], set(), [(fname, 0)]
+    while todo:
+        nm, d = todo.pop(0)
+        if nm in seen or nm not in tu.funcs:
+            continue
+        seen.add(nm)
+        f_ = tu.func(nm)
+        b = _cf.body(f_)
+        if b is None:
+            continue
+        out.append(f_)
+        if d >= depth:
+            continue
+        for e in _cf.walk(b):
+            if e.get('kind') == 'CallExpr':
+                cal = _cf.callee_name(e)
+                if cal and cal in tu.funcs and ref and cal not in ref:
+                    todo.append((cal, d + 1))
+    return out
